@@ -46,6 +46,10 @@ func runReaders(w *out.W, tier, outDir string) {
 		{goose, "-- +goose Up\n-- +goose Up\nSELECT 1;\n", nil, "goose up twice (pragma error)"},
 		{goose, "SELECT 0;\n-- +goose Up\nSELECT 1;\n-- +goose Down\nSELECT 2;\n", nil, "goose text before the first pragma"},
 		{goose, "-- +goose Up\n-- +goose StatementBegin\nSELECT 1;\n-- +goose Down\nSELECT 2;\n", nil, "goose down inside a block (pragma error)"},
+		{goose, "-- +goose StatementBegin\nSELECT 1;\n-- +goose StatementEnd\n-- +goose Up\nSELECT 2;\n", nil, "goose block before up (pragma error)"},
+		{goose, "-- +goose StatementBegin\nSELECT 1;\n", nil, "goose begin without up (pragma error)"},
+		{goose, "-- +goose Up\n-- +goose StatementBegin\n-- +goose StatementBegin\nSELECT 1;\n-- +goose StatementEnd\n", nil, "goose nested begin (pragma error)"},
+		{goose, "-- +goose Up\n-- +goose StatementBegin\nSELECT 1;\n-- +goose StatementEnd\n-- +goose StatementEnd\n", nil, "goose end twice (pragma error)"},
 		{dbmate, "-- migrate:up\nCREATE TABLE t (a int);\nCREATE TABLE u (a int);\n\n-- migrate:down\nDROP TABLE u;\n",
 			[]string{"CREATE TABLE t (a int);", "CREATE TABLE u (a int);"}, "dbmate plain"},
 		{dbmate, "-- migrate:up transaction:false\nCREATE TABLE t (a int);\n-- migrate:down\nDROP TABLE t;\n", nil, "dbmate up with option"},
